@@ -157,6 +157,8 @@ class FitsTiler(object):
 
                 if os.path.exists(os.path.join(self.out_dir, "properties")):
                     self._copy_hips_properties_to_builder()
+                else:
+                    self._restore_builder_from_wtml()
 
                 return
 
@@ -396,6 +398,34 @@ class FitsTiler(object):
             os.symlink(src=absolute_path, dst=link_path)
 
         return dir
+
+    def _restore_builder_from_wtml(self):
+        """
+        Fill in the builder from the ``index_rel.wtml`` file left in the output
+        directory by the invocation that created it, so that a reused directory
+        yields the same dataset description as a freshly tiled one.
+        """
+        from wwt_data_formats.folder import Folder
+        from wwt_data_formats.imageset import ImageSet
+        from wwt_data_formats.place import Place
+
+        wtml_path = os.path.join(self.out_dir, "index_rel.wtml")
+
+        if not os.path.exists(wtml_path):
+            return  # nothing recorded; all we can offer are the defaults
+
+        for item in Folder.from_file(wtml_path).children:
+            if isinstance(item, Place) and item.foreground_image_set is not None:
+                self.builder.place = item
+                self.builder.imgset = item.foreground_image_set
+                return
+
+            if isinstance(item, ImageSet):
+                # A TOAST dataset written without an associated place
+                self.builder.imgset = item
+                self.builder.place.foreground_image_set = item
+                self.builder.place.name = item.name
+                return
 
     def _copy_hips_properties_to_builder(self):
         hips_properties = dict()
